@@ -105,6 +105,29 @@ Theorem C18_config_is_spec : forall d idx base,
 Proof. exact config_is_spec. Qed.
 Print Assumptions C18_config_is_spec.
 
+(* existence decides, not content: an existing, readable but EMPTY index-name drop-in is the plugin's configuration
+   (the empty string) whatever name.conf contains *)
+Theorem C18_dropin_empty_specific_shadows : forall d idx base,
+  read_file d (idx ++ "-" ++ base ++ ".conf") = RData "" -> get_plugin_config d idx base = Some "".
+Proof. exact empty_specific_shadows. Qed.
+Print Assumptions C18_dropin_empty_specific_shadows.
+
+(* not vacuous: a loop that goes on while the content is empty violates it *)
+Theorem C18_dropin_first_nonempty_refuted : exists d idx base,
+  read_file d (idx ++ "-" ++ base ++ ".conf") = RData "" /\ first_nonempty_config d (dropin_paths idx base) <> Some "".
+Proof. exact first_nonempty_refuted. Qed.
+Print Assumptions C18_dropin_first_nonempty_refuted.
+
+(* the four combinations of empty / non-empty contents of the two files *)
+Example C18_dropin_empty_example :
+  get_plugin_config [("a.conf", DContent "general"); ("10-a.conf", DContent "")] "10" "a" = Some "" /\
+  get_plugin_config [("a.conf", DContent ""); ("10-a.conf", DContent "specific")] "10" "a" = Some "specific" /\
+  get_plugin_config [("a.conf", DContent ""); ("10-a.conf", DContent "")] "10" "a" = Some "" /\
+  get_plugin_config [("a.conf", DContent "general"); ("10-a.conf", DContent "specific")] "10" "a" = Some "specific" /\
+  spec_config [("a.conf", DContent "general"); ("10-a.conf", DContent "")] "10" "a" = "" /\
+  first_nonempty_config [("a.conf", DContent "general"); ("10-a.conf", DContent "")] (dropin_paths "10" "a") = Some "general".
+Proof. repeat split; reflexivity. Qed.
+
 Example C18_dropin_example :
   get_plugin_config [("a.conf", DContent "general"); ("10-a.conf", DContent "specific")] "10" "a" = Some "specific" /\
   get_plugin_config [("a.conf", DContent "general"); ("10-a.conf", DContent "specific")] "20" "a" = Some "general" /\
@@ -203,6 +226,39 @@ Theorem C18_kept_is_running : forall o, active o = true -> state_after_start o =
 Proof. exact kept_is_running. Qed.
 Print Assumptions C18_kept_is_running.
 
+(* Start fails as a whole because the runtime's SyncFn returns an error, having called the synchronisation closure
+   (calls = true) or not: for every directory and every assignment of outcomes — every combination of stages the
+   launched plugins reached — every launched process is gone when Start returns, r.plugins is empty, and the
+   processes are exactly the launchable discovered plugins *)
+Theorem C18_failed_start_kills_all : forall calls oc ds,
+  all_gone (failed_start_world calls oc ds) /\ r_plugins (failed_start_world calls oc ds) = [] /\
+  map rp_d (failed_start_world calls oc ds) = filter (fun p => launches (oc p)) ds.
+Proof. exact failed_start_kills_all. Qed.
+Print Assumptions C18_failed_start_kills_all.
+
+(* the ordinary start-up is the attempt in which the closure is called and no error is returned *)
+Theorem C18_start_world_ordinary : forall oc ds, start_world true false oc ds = world_after_start oc ds.
+Proof. exact attempt_world_called. Qed.
+Print Assumptions C18_start_world_ordinary.
+
+(* not vacuous: a clean-up that walks only the plugins the closure synchronised leaves a configured plugin running
+   when the closure was never called *)
+Theorem C18_failed_start_synced_only_refuted : exists oc ds, ~ all_gone (failed_start_world_synced_only false oc ds).
+Proof. exact failed_start_synced_only_refuted. Qed.
+Print Assumptions C18_failed_start_synced_only_refuted.
+
+Example C18_failed_start_example :
+  let p i b := {| d_idx := i; d_base := b; d_cfg := "" |} in
+  let oc q := if String.eqb (d_base q) "cfg" then OCfgErr else if String.eqb (d_base q) "sync" then OSyncFail else OGood in
+  let ds := [p "10" "ok"; p "20" "cfg"; p "30" "sync"] in
+  map rp_proc (attempt_world false oc ds) = [PRunning; PGone; PRunning] /\
+  map rp_proc (attempt_world true oc ds) = [PRunning; PGone; PGone] /\
+  map rp_proc (failed_start_world false oc ds) = [PGone; PGone; PGone] /\
+  map rp_proc (failed_start_world true oc ds) = [PGone; PGone; PGone] /\
+  map rp_proc (failed_start_world_synced_only false oc ds) = [PRunning; PGone; PRunning] /\
+  map rp_proc (failed_start_world_synced_only true oc ds) = [PGone; PGone; PGone].
+Proof. repeat split; reflexivity. Qed.
+
 (* stopPlugins on ANY plugin table: arbitrary closed flags (a plugin already marked closed but not yet pruned by an
    event included), arbitrary connection states, arbitrary process states (running, exited and not yet waited for).
    Provided the processes outside r.plugins were gone before (the invariant, below), after Stop every launched
@@ -234,6 +290,11 @@ Theorem C18_killed_when_dropped_later : forall w, dropped_gone w ->
   (forall p, In p w -> rp_listed p = true -> rp_conn p = true -> rp_closed p = false -> event_step p = p).
 Proof. exact event_drops_and_kills. Qed.
 Print Assumptions C18_killed_when_dropped_later.
+
+(* … and the same for any behaviour of the SyncFn at start-up *)
+Theorem C18_dropped_are_gone_any_start : forall calls fails oc ds h, dropped_gone (run h (start_world calls fails oc ds)).
+Proof. exact (fun calls fails oc ds h => run_dropped_gone h _ (start_world_dropped_gone calls fails oc ds)). Qed.
+Print Assumptions C18_dropped_are_gone_any_start.
 
 (* the invariant holds when Start returns and is kept by every action *)
 Theorem C18_dropped_are_gone : forall oc ds h, dropped_gone (run h (world_after_start oc ds)).
